@@ -27,31 +27,56 @@ def cigar_enum(prog):
             members[st.targets[0].id] = st.value.value
         elif isinstance(st, ast.FunctionDef):
             ret = [s for s in st.body if isinstance(s, ast.Return)]
-            if ret and isinstance(ret[0].value, ast.Set):
-                helpers[st.name] = {dotted(e).split(".")[-1] for e in ret[0].value.elts if dotted(e)}
+            v = ret[0].value if ret else None
+            hops = 0
+            while v is not None and hops < 4:
+                hops += 1
+                if isinstance(v, ast.Name) and v.id in prog.module(COMMON).assigns:
+                    v = prog.module(COMMON).assigns[v.id]         # a set built once at module level
+                elif isinstance(v, ast.Call) and call_name(v) in ("frozenset", "set", "tuple", "list") and len(v.args) == 1:
+                    v = v.args[0]
+                else:
+                    break
+            if isinstance(v, (ast.Set, ast.List, ast.Tuple)):
+                helpers[st.name] = {dotted(e).split(".")[-1] for e in v.elts if dotted(e)}
     return members, helpers
 
 
 class Walker:
     """Evaluates the branch structure of a CIGAR loop body for one op and one block state."""
 
-    def __init__(self, members, helpers, event_var, state_var, qcur, rcur):
+    def __init__(self, members, helpers, event_var, state_var, qcur, rcur, names=None):
         self.members = members
         self.helpers = helpers
+        self.unknown_tests = []
+        self.names = names or {}          # plain names standing for op sets / op codes: locals of the walker, module constants
         self.by_code = {v: k for k, v in members.items()}
         self.event_var = event_var
         self.state_var = state_var
         self.qcur = qcur
         self.rcur = rcur
 
-    def opset(self, node):
+    def opset(self, node, depth=0):
+        if depth > 4:
+            return None
+        if isinstance(node, ast.Name) and node.id in self.names:
+            return self.opset(self.names[node.id], depth + 1)
+        if isinstance(node, ast.Call) and call_name(node) in ("set", "frozenset", "tuple", "list") and len(node.args) == 1:
+            return self.opset(node.args[0], depth + 1)
         if isinstance(node, (ast.Set, ast.List, ast.Tuple)):
             out = set()
             for e in node.elts:
+                hops = 0
+                while isinstance(e, ast.Name) and e.id in self.names and hops < 4:
+                    e = self.names[e.id]
+                    hops += 1
+                d = dotted(e)
+                if d and d.endswith(".value"):
+                    d = d[:-len(".value")]
                 if isinstance(e, ast.Constant) and isinstance(e.value, int):
                     out.add(self.by_code.get(e.value, "code%d" % e.value))
-                elif dotted(e) and dotted(e).split(".")[-1] in self.members:
-                    out.add(dotted(e).split(".")[-1])
+                elif d and d.split(".")[-1] in self.members:
+                    out.add(d.split(".")[-1])
                 else:
                     return None
             return out
@@ -116,6 +141,8 @@ class Walker:
                         breaks=o["breaks"], has_match_guard=list(o["has_match_guard"]))
         if isinstance(st, ast.If):
             v = self.ev(st.test, op, state)
+            if v is None and any(isinstance(x, ast.Name) and x.id == self.event_var for x in ast.walk(st.test)):
+                self.unknown_tests.append(st.test)      # a test of the op that could not be evaluated: the outcome is not a verdict
             res = []
             if v is not False:
                 o2 = clone(o)
@@ -158,6 +185,20 @@ class Walker:
         return outs
 
 
+def _walker_names(prog, f):
+    """single-definition locals of the walker (outside its loop) and module-level constants of its module"""
+    names = {}
+    m = getattr(f, "_module", None)
+    if m is not None:
+        names.update({k: v for k, v in m.assigns.items()})
+    defs = {}
+    for st in walk_no_nested(f):
+        if isinstance(st, ast.Assign) and len(st.targets) == 1 and isinstance(st.targets[0], ast.Name):
+            defs.setdefault(st.targets[0].id, []).append(st.value)
+    names.update({k: v[0] for k, v in defs.items() if len(v) == 1})
+    return names
+
+
 def q1_read_blocks(prog, ctx, members, helpers):
     f = prog.func(COMMON, "get_read_blocks")
     loops = [s for s in f.body if isinstance(s, ast.While)]
@@ -168,7 +209,7 @@ def q1_read_blocks(prog, ctx, members, helpers):
     for need in ("cigar_event", "current_ref_block_start", "read_pos", "ref_pos", "event_len"):
         if need not in names:
             raise AnalysisError("get_read_blocks: variable %s not found (walker was restructured)" % need)
-    w = Walker(members, helpers, "cigar_event", "current_ref_block_start", "read_pos", "ref_pos")
+    w = Walker(members, helpers, "cigar_event", "current_ref_block_start", "read_pos", "ref_pos", names=_walker_names(prog, f))
     n = 0
     closers = set()
     openers = set()
@@ -183,6 +224,9 @@ def q1_read_blocks(prog, ctx, members, helpers):
                 amounts = set(o["q"]) | set(o["r"])
                 want = SAM[op]
                 where = "%s:%d" % (COMMON, loop.lineno)
+                if w.unknown_tests:
+                    ctx.undecided("Q1", loop, "get_read_blocks", "a test of the CIGAR op could not be evaluated: %s" % src(w.unknown_tests[0])[:60])
+                    return n
                 if (min(dq, 1), min(dr, 1)) != want or dq > 1 or dr > 1 or (amounts and amounts != {"event_len"}):
                     ctx.fail("Q1", loop, "get_read_blocks", "op %s, block %s: read_pos += %s, ref_pos += %s" % (op, state, o["q"], o["r"]),
                              "CIGAR op %s (block %s) advances query %d time(s) and reference %d time(s) by %s; SAM says "
@@ -258,7 +302,7 @@ def q1_move_ref(prog, ctx, members, helpers):
     if len(loops) != 1:
         raise AnalysisError("move_ref_coord_alogn_alignment: expected one while loop")
     loop = loops[0]
-    w = Walker(members, helpers, "cigar_event", "__none__", "read_length_consumed", "reference_length_consumed")
+    w = Walker(members, helpers, "cigar_event", "__none__", "read_length_consumed", "reference_length_consumed", names=_walker_names(prog, f))
     n = 0
     for op in sorted(members):
         outs = w.run(loop.body, op, "open")
@@ -270,6 +314,9 @@ def q1_move_ref(prog, ctx, members, helpers):
                 ctx.ok("Q1", "%s:%d" % (rel, loop.lineno), "move_ref_coord: %s stops the walk (clipping on the far side)" % op)
                 continue
             same_amount = (not o["q"] or not o["r"]) or o["q"] == o["r"]
+            if w.unknown_tests:
+                ctx.undecided("Q1", loop, "move_ref_coord_alogn_alignment", "a test of the CIGAR op could not be evaluated: %s" % src(w.unknown_tests[0])[:60])
+                return n
             if (min(dq, 1), min(dr, 1)) != want or dq > 1 or dr > 1 or not same_amount:
                 ctx.fail("Q1", loop, "move_ref_coord_alogn_alignment", "op %s: read += %s, ref += %s" % (op, o["q"], o["r"]),
                          "CIGAR op %s advances query by %s and reference by %s; SAM says query=%d reference=%d (same amount)"
@@ -630,6 +677,13 @@ def q3(prog, ctx, members):
         raise AnalysisError("move_ref_coord_alogn_alignment: start-position block (if direction == 1 ... else ...) not found")
     S, H, M = members["soft_clipping"], members["hard_clipping"], members["match"]
     enum_env = {"CigarEvent.%s" % k: v for k, v in members.items()}
+    enum_env.update({"CigarEvent.%s.value" % k: v for k, v in members.items()})
+    # module-level names for op codes / op sets (evaluated over the enum, in definition order)
+    for _name, _v in prog.module(rel).assigns.items():
+        try:
+            enum_env[_name] = _eval(_v, enum_env)
+        except (_NoEval, IndexError, KeyError, TypeError):
+            pass
     n = 0
     for direction in (1, -1):
         for clips in ([], [S], [H], [H, S]):
